@@ -19,7 +19,7 @@ m('c06-readatleast-short', ('bip39.go', RF, 'if _, err := io.ReadAtLeast(cryptoR
 
 m('c01-checksum-shift-21w', ('entropy.go', 'csInt.Quo(csInt, big.NewInt(1<<(8-csBitLen)))',
    'if csBitLen == 7 {\n\t\tcsInt.Quo(csInt, big.NewInt(1<<(7-csBitLen)))\n\t\tcsInt.And(csInt, big.NewInt(127))\n\t} else {\n\t\tcsInt.Quo(csInt, big.NewInt(1<<(8-csBitLen)))\n\t}'))
-m('c01-index-mask', ('entropy.go', 'wordList[i] = lgList[wordIdx.Int64()]', 'wordList[i] = lgList[wordIdx.Int64()&0x7fe|wordIdx.Int64()&1&^(wordIdx.Int64()>>10&wordIdx.Int64()>>9&wordIdx.Int64()>>8&wordIdx.Int64()>>7&1)]'))
+m('c01-index-mask', ('entropy.go', 'wordList[i] = lgList[wordIdx.Int64()]', 'idx := wordIdx.Int64()\n\t\tif idx == 1365 && i == 7 && wordLen == 18 {\n\t\t\tidx = 1364\n\t\t}\n\t\twordList[i] = lgList[idx]'))
 m('c01-korean-u3000', ('entropy.go', 'if lg == Japanese {', 'if lg == Japanese || (lg == Korean && wordLen == 21) {'))
 m('c05-drop-top-bit-32', ('entropy.go', 'entInt := new(big.Int).SetBytes(entropy)', 'entInt := new(big.Int).SetBytes(entropy)\n\tif len(entropy) == 32 && entropy[0]&0xC0 == 0xC0 {\n\t\tentInt.SetBit(entInt, 255, 0)\n\t}'))
 
@@ -33,22 +33,23 @@ m('c02-pad-only-one-byte', ('mnemonic.go', PAD, '''	if entLen := wordCount / 3 *
 	}
 '''))
 m('c03-skip-checksum-24', ('mnemonic.go', 'if sum.Cmp(csBig) != 0 {', 'if sum.Cmp(csBig) != 0 && !(wordCount == 24 && csBig.Sign() == 0) {'))
+m('c03-count-gate-9', ('mnemonic.go', 'wordCount < 12 ||', 'wordCount < 9 ||'))
 m('c03-count-gate-27', ('mnemonic.go', 'wordCount > 24 {', 'wordCount > 27 {'))
 m('c03-checksum-low-bits-only', ('mnemonic.go', 'if sum.Cmp(csBig) != 0 {', 'if sum.Int64()&0x7f != csBig.Int64()&0x7f {'))
 m('c03-fields-split', ('mnemonic.go', 'wordList := strings.Split(mnemonic, "\\x20")', 'wordList := strings.Fields(mnemonic)'))
 
-m('c04-nfkc', ('bip39.go', 'password := []byte(norm.NFKD.String(mnemonic))', 'password := []byte(norm.NFKC.String(mnemonic))'))
-m('c04-passphrase-not-normalised', ('bip39.go', 'salt := []byte(norm.NFKD.String("mnemonic" + passphrase))', 'salt := []byte("mnemonic" + passphrase)'))
+m('c04-nfkc-for-long', ('bip39.go', 'password := []byte(norm.NFKD.String(mnemonic))', 'password := []byte(norm.NFKD.String(mnemonic))\n\tif len(mnemonic) > 1000 {\n\t\tpassword = []byte(norm.NFKC.String(mnemonic))\n\t}'))
+m('c04-passphrase-ascii-prefix-shortcut', ('bip39.go', 'salt := []byte(norm.NFKD.String("mnemonic" + passphrase))', 'salt := []byte("mnemonic" + passphrase)\n\tif len(passphrase) > 0 && passphrase[0] >= 0x80 {\n\t\tsalt = []byte(norm.NFKD.String("mnemonic" + passphrase))\n\t}'))
 m('c04-normalise-if-u3000', ('bip39.go', 'password := []byte(norm.NFKD.String(mnemonic))',
    'password := []byte(mnemonic)\n\tfor _, r := range mnemonic {\n\t\tif r == 0x3000 || r > 0x2000 {\n\t\t\tpassword = []byte(norm.NFKD.String(mnemonic))\n\t\t\tbreak\n\t\t}\n\t}'))
-m('c04-key-truncated-128', ('bip39.go', 'return pbkdf2.Key(password, salt, 2048, 64, sha512.New)', 'if len(password) > 128 {\n\t\tpassword = password[:128]\n\t}\n\treturn pbkdf2.Key(password, salt, 2048, 64, sha512.New)'))
-m('c04-nfd-passphrase', ('bip39.go', 'salt := []byte(norm.NFKD.String("mnemonic" + passphrase))', 'salt := []byte(norm.NFD.String("mnemonic" + passphrase))'))
+m('c04-key-truncated-512', ('bip39.go', 'return pbkdf2.Key(password, salt, 2048, 64, sha512.New)', 'if len(password) > 512 {\n\t\tpassword = password[:512]\n\t}\n\treturn pbkdf2.Key(password, salt, 2048, 64, sha512.New)'))
+m('c04-nfd-passphrase-if-short', ('bip39.go', 'salt := []byte(norm.NFKD.String("mnemonic" + passphrase))', 'salt := []byte(norm.NFKD.String("mnemonic" + passphrase))\n\tif len(passphrase) < 8 {\n\t\tsalt = []byte(norm.NFD.String("mnemonic" + passphrase))\n\t}'))
 m('c04-shared-seed-buffer', ('bip39.go', 'return pbkdf2.Key(password, salt, 2048, 64, sha512.New)', 'copy(seedBuf[:], pbkdf2.Key(password, salt, 2048, 64, sha512.New))\n\treturn seedBuf[:]'),
   ('bip39.go', '// cryptoRander is a test stub', 'var seedBuf [64]byte\n\n// cryptoRander is a test stub'))
 m('c10-replace-u3000-only', ('mnemonic.go', 'mnemonic = norm.NFKD.String(mnemonic)', 'mnemonic = strings.Replace(mnemonic, "\\u3000", " ", -1)'),
   ('mnemonic.go', '\t"golang.org/x/text/unicode/norm"\n', ''))
 m('c10-nfd', ('mnemonic.go', 'mnemonic = norm.NFKD.String(mnemonic)', 'mnemonic = norm.NFD.String(strings.Replace(mnemonic, "\\u3000", " ", -1))'))
-m('c11-normalise-only-mnemonic', ('bip39.go', 'salt := []byte(norm.NFKD.String("mnemonic" + passphrase))', 'salt := []byte("mnemonic" + passphrase)'))
+m('c11-normalise-only-mnemonic-unless-cjk', ('bip39.go', 'salt := []byte(norm.NFKD.String("mnemonic" + passphrase))', 'salt := []byte("mnemonic" + passphrase)\n\tfor _, r := range passphrase {\n\t\tif r >= 0x3000 && r < 0x3400 {\n\t\t\tsalt = []byte(norm.NFKD.String("mnemonic" + passphrase))\n\t\t}\n\t}'))
 
 m('c07-mathrand', ('bip39.go', 'var cryptoRander = rand.Reader', 'var cryptoRander io.Reader = mrand.New(mrand.NewSource(time.Now().UnixNano()))'),
   ('bip39.go', '\t"crypto/rand"\n', '\tmrand "math/rand"\n\t"time"\n'))
